@@ -167,6 +167,21 @@ CLAIMS["C16"] = bounded_claim(
     "region (buffer_output fill past a full block hangs; buffer_input results after a misaligned request; run element that "
     "does not exhaust its block): every configuration that works today has its own failure ids, so a regression there is "
     "still reported. No proof obligations yet.", "DESIGN.md 5 (C16)")
+CLAIMS["C09"] = dict(
+    category="other",
+    text="Proof part: Sum, Mean (ordinary summation), Count, StoreFilled - __init__, fill (bare data and (data, context) pairs), "
+         "compute and reset against the documented aggregate over mathematical reals (Sum = left fold of + from the start value in "
+         "fill order; Mean = sum/count, LenaZeroDivisionError exactly when nothing was filled and not pass_on_empty; Count = number "
+         "of fills, context extended only by {name: count}), with the context of the last filled value; compute leaves the "
+         "aggregate untouched (frame); lemma per class: after reset() every state field equals that of a newly constructed "
+         "element. Bounded part (labelled): all histories of length <= 5 (thorough <= 7) over {fill bare, fill with context, "
+         "compute, reset} for 37 configurations of Sum, DSum, Mean, VarianceMeanCount, Vectorize, Count, StoreFilled, GroupBy, "
+         "Histogram, Graph against references from the property text and against a fresh element on the suffix after the last "
+         "reset; DSum against exact Fraction sums. Three genuine defects repaired (fix: Histogram.reset/__init__, Vectorize, "
+         "Graph.reset).",
+    design_ref="DESIGN.md 5 (C09), B.6", technique=TECH,
+    note=TRUST + "; floats as mathematical reals (DESIGN 2.4 item 1b/1c; CPython 3.12's compensated builtin sum is not the "
+         "reference); DSum's Decimal loop, VarianceMeanCount and Vectorize are bounded only")
 NA_REASON = "check not built yet (work in progress; see DESIGN.md section 8)"
 
 def main():
